@@ -237,12 +237,77 @@ theorem waititer_refuted : ¬ waititer_full := by
   have := (h [none] [0, 0] [.next, .set 0 (.result 1), .tick, .next, .next] (by decide)).2
   exact this (by decide)
 
-/-- with distinct arguments (tie only): no KeyError, yields are a prefix of the completion order, each with the
-    index of its argument and the outcome of its future -/
-def waititer_partial_goal : Prop :=
+/-- with distinct arguments, for every initial state and every schedule (settles, `call_soon`s, loop iterations,
+    `next()` calls in any order): no `KeyError`, the yields are exactly a prefix of the completion order, no input
+    completes (hence is yielded) twice, and each yield carries the index of its argument.
+    (Reachability invariant `Wait.Inv`: scheduling part — every argument is still to register, or pending and
+    listened to, or has its callback in the ready queue exactly once, or has completed — and iterator part —
+    `compl = yielded ++ _finished`, `_unfinished` maps exactly the not-yet-yielded arguments to their index.) -/
+theorem waititer_partial :
   ∀ (st : List FState) (args : List Nat) (ops : List Wait.Op), args.Nodup → (∀ f ∈ args, f < st.length) →
     let s := Wait.run (Wait.init st args) ops
     s.cbErrs = 0 ∧ Wait.NextOut.keyError ∉ s.outs ∧ (s.yielded.map (·.1)) <+: s.compl ∧ s.compl.Nodup ∧
-    (∀ p ∈ s.yielded, Spec.indexOf args p.1 = some p.2)
+    (∀ p ∈ s.yielded, Spec.indexOf args p.1 = some p.2) := by
+  intro st args ops hnd _ s
+  have h := Wait.reach st args ops hnd
+  refine ⟨h.iter.w6.1, h.iter.w6.2, ?_, h.sched.cnd, ?_⟩
+  · rw [h.iter.w1]; exact List.prefix_append _ _
+  · have := h.iter.w3'
+    rw [h.hargs] at this
+    exact this
+
+example : [1, 0].Nodup ∧ (∀ f ∈ [1, 0], f < [none, some (Outcome.exc 5)].length) ∧
+    (let s := Wait.run (Wait.init [none, some (.exc 5)] [1, 0]) [.next, .set 0 .cancelled, .next, .tick]
+     s.yielded = [(1, 0), (0, 1)] ∧ s.compl = [1, 0] ∧
+     s.outs = [.fut (some (.exc 5)), .fut (some .cancelled)]) := by decide
+
+/-- every input is yielded exactly once: when the iterator reports `done()`, the yielded futures are the
+    arguments, each exactly once (distinct arguments) -/
+theorem waititer_all_yielded (st : List FState) (args : List Nat) (ops : List Wait.Op) (hnd : args.Nodup) :
+    let s := Wait.run (Wait.init st args) ops
+    Wait.isDone s = true → (s.yielded.map (·.1)).Nodup ∧ ∀ f, f ∈ s.yielded.map (·.1) ↔ f ∈ args := by
+  intro s hdone
+  have h := Wait.reach st args ops hnd
+  refine ⟨?_, ?_⟩
+  · have := h.sched.cnd
+    rw [h.iter.w1] at this
+    exact (List.nodup_append.1 this).1
+  · have := Wait.complete_aux _ h.sched h.iter hdone
+    rw [h.hargs] at this
+    exact this
+
+example : (let s := Wait.run (Wait.init [none, none] [0, 1]) [.set 1 (.result 2), .set 0 (.result 1), .tick, .next, .next]
+    Wait.isDone s = true ∧ s.yielded = [(1, 1), (0, 0)]) := by decide
+
+/-- never pending for ever: once every argument is done and the loop is idle, the future returned by the last
+    `next()` has resolved (distinct arguments) … -/
+theorem waititer_never_pending (st : List FState) (args : List Nat) (ops : List Wait.Op) (hnd : args.Nodup) :
+    let s := Wait.run (Wait.init st args) ops
+    (∀ f ∈ args, get s.st f ≠ none) → s.ready = [] → s.outs.getLast? ≠ some (.fut none) := by
+  intro s hd hr
+  have h := Wait.reach st args ops hnd
+  exact Wait.never_pending_aux _ h.sched h.iter (by rw [h.hargs]; exact hd) hr
+
+example : (let s := Wait.run (Wait.init [none, none] [0, 1]) [.next, .set 1 (.result 2), .set 0 .cancelled]
+    s.outs.getLast? = some (.fut none) ∧ (∀ f ∈ [0, 1], get s.st f ≠ none) ∧
+    (Wait.run s [.tick]).ready = [] ∧ (Wait.run s [.tick]).outs.getLast? = some (.fut (some (.result 2)))) := by decide
+
+/-- … and as long as the iterator is not `done()`, the next `next()` returns an already resolved future: the
+    oldest completed input not yet yielded, with its argument index and its outcome -/
+theorem waititer_next_yields (st : List FState) (args : List Nat) (ops : List Wait.Op) (hnd : args.Nodup) :
+    let s := Wait.run (Wait.init st args) ops
+    (∀ f ∈ args, get s.st f ≠ none) → s.ready = [] → Wait.isDone s = false →
+      ∃ f i rest, s.finished = f :: rest ∧ get s.st f ≠ none ∧ Spec.indexOf args f = some i ∧
+        (Wait.next s).yielded = s.yielded ++ [(f, i)] ∧ (Wait.next s).outs = s.outs ++ [.fut (get s.st f)] ∧
+        (Wait.next s).finished = rest := by
+  intro s hd hr hdone
+  have h := Wait.reach st args ops hnd
+  have := Wait.next_yields_aux _ h.sched h.iter (by rw [h.hargs]; exact hd) hr hdone
+  rw [h.hargs] at this
+  exact this
+
+example : (let s := Wait.run (Wait.init [some (.result 1), some (.exc 9)] [0, 1]) [.next]
+    (∀ f ∈ [0, 1], get s.st f ≠ none) ∧ s.ready = [] ∧ Wait.isDone s = false ∧
+    (Wait.next s).yielded = [(0, 0), (1, 1)]) := by decide
 
 end TornadoModel.C36
